@@ -1104,7 +1104,39 @@ func (c *Ctx) afmTableEventsX9(call ssa.CallInstruction, f *ssa.Function, fa, va
 		}
 		return false
 	}
-	if !split(fa, 0) || ref == nil {
+	if !split(fa, 0) {
+		return nil, false
+	}
+	if ref == nil {
+		// a constant format: the element may still supply the operands (keyword and value both
+		// read out of the current element: `write("%s %.0f", e.key, e.val)`)
+		if sl, ok := va.(*ssa.Slice); ok {
+			if arr, ok := sl.X.(*ssa.Alloc); ok {
+				for _, r := range *arr.Referrers() {
+					ia, ok := r.(*ssa.IndexAddr)
+					if !ok {
+						continue
+					}
+					for _, rr := range *ia.Referrers() {
+						st, ok := rr.(*ssa.Store)
+						if !ok || st.Addr != ssa.Value(ia) {
+							continue
+						}
+						inner := st.Val
+						if mi, ok := inner.(*ssa.MakeInterface); ok {
+							inner = mi.X
+						}
+						if er, ok := elemRefOfValueX9(inner, 0); ok {
+							if _, isC := constInt(er.idx); !isC {
+								same(er)
+							}
+						}
+					}
+				}
+			}
+		}
+	}
+	if ref == nil {
 		return nil, false
 	}
 	al, n, ok := literalTableX9(ref.base)
@@ -1182,7 +1214,9 @@ func (c *Ctx) afmTableEventsX9(call ssa.CallInstruction, f *ssa.Function, fa, va
 			format += s
 		}
 		e := afmEvent{format: format, call: call, fn: f, known: true}
-		for _, op := range operands {
+		verbs := afmVerbRe.FindAllStringIndex(format, -1)
+		shift := 0
+		for i, op := range operands {
 			inner := op
 			if mi, ok := inner.(*ssa.MakeInterface); ok {
 				inner = mi.X
@@ -1191,6 +1225,13 @@ func (c *Ctx) afmTableEventsX9(call ssa.CallInstruction, f *ssa.Function, fa, va
 				v, ok := storedAtX9(ea, r.path, 0)
 				if !ok {
 					return nil, false
+				}
+				if str, isC := constString(v); isC && len(verbs) == len(operands) && format[verbs[i][0]:verbs[i][1]] == "%s" {
+					// a constant word of the element printed with %s: part of the format
+					lit := strings.ReplaceAll(str, "%", "%%")
+					e.format = e.format[:verbs[i][0]+shift] + lit + e.format[verbs[i][1]+shift:]
+					shift += len(lit) - 2
+					continue
 				}
 				a := c.afmOrigin(v)
 				a.typ = inner.Type()
